@@ -264,7 +264,11 @@ func c07Closure(c *Ctx, sc *Scenario, ex *c07Extra) *Violation {
 
 type seqItem struct {
 	Text string `json:"text"`
-	Deps []int  `json:"deps,omitempty"` // indices (in the original sequence) this item must stay after
+	Deps []int  `json:"deps,omitempty"` // indices (in the original sequence) this item needs and must stay after
+	// After: indices this item must stay after when both are present, without needing them (two records with one
+	// field-name set, or a record and an unqualified literal of its field set: moving one across the other would
+	// legitimately change which record the literal denotes; deleting one of them is no such move)
+	After []int `json:"after,omitempty"`
 	Base bool   `json:"base,omitempty"` // belongs to the base program (else: inserted)
 }
 
@@ -281,6 +285,12 @@ func topoShuffle(r *common.Rng, items []seqItem, keep []bool, strength int) []in
 			}
 			ok := true
 			for _, d := range items[i].Deps {
+				if keep[d] && !placed[d] {
+					ok = false
+					break
+				}
+			}
+			for _, d := range items[i].After {
 				if keep[d] && !placed[d] {
 					ok = false
 					break
@@ -369,6 +379,7 @@ func c07Generated(c *Ctx, r *common.Rng, run int) *Scenario {
 	}
 	go2 := o
 	go2.Items = o.Items + extra
+	go2.Ambiguous = r.Chance(1, 3) // records sharing a field-name set; ordered by the field-set constraints below
 	g := genItems(r, go2, "")
 	body := g.items[1:]
 	nBase := o.Items
@@ -382,6 +393,39 @@ func c07Generated(c *Ctx, r *common.Rng, run int) *Scenario {
 			if ref >= 1 {
 				items[i].Deps = append(items[i].Deps, ref-1)
 			}
+		}
+		// an unqualified record literal denotes the latest declared record with its field set: items that declare
+		// and items that use (or declare) the same set keep their relative order
+		for j := 0; j < i; j++ {
+			if intersects(it.DeclSets, body[j].DeclSets) || intersects(it.UseSets, body[j].DeclSets) || intersects(it.DeclSets, body[j].UseSets) {
+				items[i].After = append(items[i].After, j)
+			}
+		}
+	}
+	// reach probe: two records with one field-name set, an unqualified literal between their declarations and
+	// another one after both
+	{
+		found := false
+		for d2 := 0; d2 < nBase && !found; d2++ {
+			for _, k := range body[d2].DeclSets {
+				d1, u1, u2 := -1, -1, -1
+				for j := 0; j < nBase; j++ {
+					switch {
+					case j < d2 && contains(body[j].DeclSets, k):
+						d1 = j
+					case d1 >= 0 && j > d1 && j < d2 && contains(body[j].UseSets, k):
+						u1 = j
+					case j > d2 && contains(body[j].UseSets, k):
+						u2 = j
+					}
+				}
+				if d1 >= 0 && u1 >= 0 && u2 >= 0 {
+					found = true
+				}
+			}
+		}
+		if found && c.Counters != nil {
+			c.count("probe:ambiguous_records_with_literal_between_and_after", 1)
 		}
 	}
 	var baseTexts []string
@@ -962,4 +1006,24 @@ func countDecls(r *Result) int {
 		goDecls(b, d)
 	}
 	return len(d)
+}
+
+func intersects(a, b []string) bool {
+	for _, x := range a {
+		for _, y := range b {
+			if x == y {
+				return true
+			}
+		}
+	}
+	return false
+}
+
+func contains(xs []string, x string) bool {
+	for _, y := range xs {
+		if y == x {
+			return true
+		}
+	}
+	return false
 }
